@@ -5,6 +5,24 @@ HERE = os.path.dirname(os.path.dirname(os.path.abspath(__file__)))
 SETUP = ('/venv/bin/python -c "import hypothesis" 2>/dev/null || /venv/bin/pip install -q --no-index '
          '--find-links /opt/veriftools/wheels hypothesis')
 CHECKS = {
+ 'C07': dict(technique='Hypothesis-generated measure-structured scores x every (a,b) range + illegal shapes; measure model from barline rows, partition oracle, ValueError contract',
+             text='All ranges of every generated score are exported and their data lines compared with the lines of the full export that the barline model assigns to the range; partition, iteration and the three rejection clauses are checked per document.',
+             note='Trusted: kv/measures.py boundaries. kernpy\'s alternative numbering (an all-null stretch before the first barline counted as measure 1) is accepted and labelled. Bounded random search.', ref='4 C07'),
+ 'C08': dict(technique='Hypothesis-generated scores x every range; independent Humdrum well-formedness validator, re-import, text-level signature tracker on source vs excerpt',
+             text='Every excerpt of every generated score must pass an independent syntax validator, re-import cleanly and give every note the same governing clef/key/time/meter as the full score. The three classes the property designates are explored in separate profiles and tracked as known findings by exact symptom.',
+             note='Trusted: kv/humdrum.py. Core = signatures before measure 1, same kinds on every spine, splits re-joined before the next barline (nested and multi-way joins included).', ref='4 C08'),
+ 'C10': dict(technique='exhaustive grid (11,025 calls + one-note documents) + Hypothesis documents with clef changes in sub-spines; diatonic translation model and clef-in-force from the spine-path model',
+             text='The whole pitch x clef grid is enumerated against the translation model and laws that do not depend on the bottom-line constant; documents check that each note is converted under the clef the path model says governs it and that nothing else differs from the kern export.',
+             note='Trusted: kv/pitch.py; Clef.bottom_line() is read from kernpy (a consistent change of that constant is invisible, see DESIGN 6).', ref='4 C10'),
+ 'C12': dict(technique='Hypothesis-generated documents with 1-4 damaged cells, differential against the undamaged import; Hypothesis RuleBasedStateMachine over importer call histories vs fresh importers',
+             text='Damaged documents must import, report exactly the damaged kern cells once with line numbers, leave all other tokens identical to the undamaged import and export damaged cells verbatim; a stateful machine checks that a long-lived importer answers every token like a fresh one.',
+             note='Trusted: malformed corpus labels (strict texts are rejected by a fresh importer on this tree). "token+garbage" silently truncated is a known finding recognised by its exact symptom.', ref='4 C12'),
+ 'C13': dict(technique='Hypothesis-generated documents x drawn option products; composition of the three single-option model transformations in all six orders; explicit-default vs omitted; reused Exporter object',
+             text='Each drawn combination of spine selection, category selection and encoding must equal the composition of the independently validated single-option transformations, and each option alone its own transformation.',
+             note='Trusted: kv/xform.py as validated by C04-C06/C10. Bounded random search over the option product.', ref='4 C13'),
+ 'C17': dict(technique='Hypothesis-generated documents with global comments; expected listing from the spine-path model, closure from the README tree, internal consistency of unique/frequency/comment queries',
+             text='The token listing, all 37 single-category filters plus drawn sets, unique listings, frequencies, comment queries and the monophony predicate are compared with values computed from the abstract document.',
+             note='Trusted: kv/spine.py DFS order, kv/cats.py. Bounded random search.', ref='4 C17'),
  'C01': dict(technique='Hypothesis-generated documents, round-trip fixed point (kern and eKern) + metamorphic equality of two renderings of the same abstract notes',
              text='Generated well-formed documents over the whole supported grammar are exported, re-imported and re-exported (plain and extended form), and a second writing of the same notes with signifiers moved/permuted/repeated must export identically. Bounded random search with shrinking; no absence claim beyond the explored sizes.',
              note='Trusted: the generator only produces documents inside the quantifier (checked: they import without errors). Sizes bounded (<=4 spines, <=3 sub-spines, ~25 rows). Explored class chord+rest+foreign signifier is a known finding.', ref='4 C01'),
